@@ -98,6 +98,20 @@ class Lemma:
         self.note = note
 
 
+class StepLemma:
+    """Step lemma over the *body of a loop of the real function*: from a symbolic loop state that
+    satisfies `requires`, executing the body once for each of the given element values (in order)
+    raises nothing and ends in a state satisfying `ensures`.  This is the induction step that,
+    with A-fold, lifts per-element facts to whole sequences (DESIGN.md 1.4)."""
+
+    def __init__(self, name, target, loop, state, elements, requires=(), ensures=(), params=None, props=(), note=""):
+        self.name, self.target, self.loop = name, target, loop
+        self.state, self.elements = state, list(elements)
+        self.params = params or {}
+        self.requires, self.ensures = list(requires), list(ensures)
+        self.props, self.note = list(props), note
+
+
 class ClassDecl:
     def __init__(self, name, fields, inv=None, make=None, gen=None, ghost=None):
         self.ghost = ghost or {}  # ghost field -> native function(obj) computing it (replay / search only)
@@ -120,6 +134,7 @@ class Registry:
     def __init__(self):
         self.contracts = {}
         self.lemmas = {}
+        self.steps = {}
         self.statics = {}  # name -> (callable(reg) -> result dict, props)
         self.classes = {}
         self.spec_functions = {}
@@ -139,6 +154,19 @@ class Registry:
         l = Lemma(name, **kw)
         self.lemmas[name] = l
         return l
+
+    def step_lemma(self, name, **kw):
+        self.steps[name] = StepLemma(name, **kw)
+        return self.steps[name]
+
+    def external(self, callable_obj, model, description):
+        """Assumed contract of an external (non-dnspython) callable, given as a model function
+        (I, args, kwargs) -> value; listed in the trusted base of every property that uses it."""
+        from .models2 import BUILTIN_MODELS
+
+        BUILTIN_MODELS[callable_obj] = model
+        self.externals = getattr(self, "externals", {})
+        self.externals[getattr(callable_obj, "__qualname__", repr(callable_obj))] = description
 
     def static(self, name, fn, props=()):
         self.statics[name] = (fn, list(props))
@@ -490,6 +518,98 @@ def verify_lemma(reg: Registry, l: Lemma, opts=None):
         res["status"] = "failed"
     elif any(o["status"] != "unsat" for o in obs):
         res["status"] = "undecided"
+    else:
+        res["status"] = "proved"
+    res["wall_s"] = round(time.time() - t0, 3)
+    res["solver_time_s"] = round(res["solver_time_s"], 3)
+    return res
+
+
+def verify_step(reg: Registry, l: StepLemma, opts=None):
+    import ast as _ast
+
+    from .interp import _Break, _Continue, _Return
+    from .models2 import snapshot_value
+
+    t0 = time.time()
+    res = {"contract": "step:" + l.name, "props": l.props, "status": None, "obligations": [], "paths": 0, "covers": 0, "functions": [],
+           "assumed_contracts": [], "inlined": [], "unsupported": None, "solver_time_s": 0.0, "note": l.note}
+    try:
+        fn = reg.resolve_function(l.target)
+        info = FnInfo.of(fn)
+        node = next(n for n in FnInfo._in_order(info.node) if isinstance(n, (_ast.For, _ast.While, _ast.AsyncFor)) and info.loops.get(id(n)) == l.loop)
+    except Exception as e:
+        res["status"] = "unresolved"
+        res["unsupported"] = f"{type(e).__name__}: {e}"
+        return res
+    res["functions"].append(info.describe())
+    if not isinstance(node, (_ast.For, _ast.AsyncFor)):
+        res["status"], res["unsupported"] = "unsupported", "step lemmas are defined for 'for' loops"
+        return res
+    work = [[]]
+    pid = 0
+    o = dict(opts or {})
+    o["vc_cache"] = {}
+    while work:
+        dec = work.pop()
+        pid += 1
+        if pid > 600:
+            res["unsupported"] = "path limit exceeded"
+            break
+        path = Path(dec, pid, o)
+        I = Interp(path, reg, None)
+        try:
+            locals_ = {}
+            for nm, ty in list(l.params.items()) + list(l.state.items()):
+                locals_[nm] = I.fresh(ty, nm)
+            frame = Frame(fn, locals_, fn.__globals__, info)
+            I.assume_clauses(l.requires, frame)
+            memo = {}
+            for nm in list(locals_):
+                frame.locals["old_" + nm] = snapshot_value(locals_[nm], memo)
+            I.depth = 1
+            I.cur_frame = frame
+            for k, el in enumerate(l.elements):
+                val = I.eval_clause(el, frame, 0)
+                I.assign(node.target, val, frame)
+                try:
+                    I.exec_block(node.body, frame)
+                except _Continue:
+                    pass
+                except _Break:
+                    path.prove(z3.BoolVal(False), f"step:{l.name}.no-break[{k}]", kind="step")
+                except _Return:
+                    path.prove(z3.BoolVal(False), f"step:{l.name}.no-return[{k}]", kind="step")
+                except PyExc as e:
+                    path.prove(z3.BoolVal(False), f"step:{l.name}.no-exception[{k}:{e.cls.__name__}]", kind="step")
+                    raise PathEnd()
+            I.prove_clauses(l.ensures, frame, f"step:{l.name}.ensures")
+            if path.final_cover():
+                res["covers"] += 1
+                o["have_cover"] = True
+        except Infeasible:
+            pass
+        except PathEnd:
+            pass
+        except Unsupported as u:
+            res["unsupported"] = str(u)
+            break
+        work.extend(path.forks)
+        res["paths"] += 1
+        res["solver_time_s"] += path.solver_time
+        res["obligations"].extend(ob.to_json() for ob in path.obligations)
+        res["inlined"] = sorted(set(res["inlined"]) | I.inlined)
+    obs = res["obligations"]
+    if res["unsupported"]:
+        res["status"] = "unsupported"
+    elif not obs:
+        res["status"] = "vacuous"
+    elif any(ob["status"] == "sat" for ob in obs):
+        res["status"] = "failed"
+    elif any(ob["status"] != "unsat" for ob in obs):
+        res["status"] = "undecided"
+    elif res["covers"] == 0:
+        res["status"] = "vacuous"
     else:
         res["status"] = "proved"
     res["wall_s"] = round(time.time() - t0, 3)
